@@ -1,4 +1,5 @@
 """C06 — C++ functions are only ever entered with correctly typed arguments."""
+import os, re
 from irbmc import core
 from irbmc.core import Family, Harness, STRING_MODEL
 
@@ -32,11 +33,23 @@ def dispatch_harness(tier):
 def harnesses(tier):
     hs = [dispatch_harness(tier)]
     shapes = []
+    def mk_replay(form):
+        def replay(inp, shape, failed):
+            if 'never handed to C++' not in failed['desc']: return None, 'no native replay for this assertion'
+            try:
+                a = int(re.sub(r'\D', '', inp['a']['v'])) & 3; fl = int(re.sub(r'\D', '', inp['flags']['v']))
+            except Exception as e: return None, 'inputs missing from trace: %s' % sorted(inp)
+            import subprocess
+            tifc = int(subprocess.run(['grep', '-h', 'define TIF_const', os.path.join(core.layout_dir(), 'layout.h')], capture_output=True, text=True).stdout.split()[-1])
+            cmd = [core.native_tool('c06_replay'), str(form), ['int', 'double', 'other', 'intptr'][a], '1' if fl & tifc else '0']
+            r = core.run(cmd, timeout=60)
+            return (True if r.returncode == 1 else False if r.returncode == 0 else None), ' '.join(cmd[1:]) + ' -> ' + r.stdout.strip()
+        return replay
     for f, (nm, rx) in FORMS.items():
         wit = ['witness: cast refused', 'witness: cast accepted'] + (['witness: null object'] if f in (1, 2, 3) else [])
         hs.append(Harness('D3.cast<%s>' % nm, FAM, [rx], 'c06_cast.c', stubs=[r'bad_any_cast::bad_any_cast', r'std::runtime_error::runtime_error'],
                           shapes=[dict(FORM=f, CAST=core.csym(FAM, rx), _tag='form=' + nm, _witness=tuple(wit))], opts=['--unwind', '4'], timeout=120, mem_gb=4,
-                          inputs=['a', 'b', 'flags', 'isnull', 'stored'], note='static/bare type in {int,double,other,int*}, all flag combinations, null or non-null object'))
+                          inputs=['a', 'b', 'flags', 'isnull', 'stored'], note='static/bare type in {int,double,other,int*}, all flag combinations, null or non-null object', replay=mk_replay(f)))
     return hs
 
 ASSUMPTIONS = ['the Data object satisfies its constructor invariant (m_data_ptr == nullptr iff const)', 'typeinfo objects are compared by address (one object per type, as after linking)']
